@@ -156,3 +156,58 @@ def check_iteration_local(rep: Report, rule: str, f: FuncInfo, loop: ast.For, ex
                f"`{v}` can be read at {cfg.describe(witness[-1])} without having been bound in this iteration (path: " + ' -> '.join(cfg.describe(x).split(': ', 1)[0] for x in witness[-5:]) +
                '): it then still holds the value computed for the previous component')
     return count
+
+
+def multitensor_names(f: FuncInfo, with_params: bool = True) -> Set[str]:
+    """Names of `f` that hold a MultiTensor under construction: bound to MultiTensor(...), MultiTensor-annotated parameters, and
+    selector names every assignment of which copies one of those (or None): `target = Jx` / `target = J_inputs` / `target = None`."""
+    from ..util import callee_last
+    multis: Set[str] = set()
+    for n in own_nodes(f.node):
+        if isinstance(n, (ast.Assign, ast.AnnAssign)) and n.value is not None and isinstance(n.value, ast.Call) and callee_last(n.value) == 'MultiTensor':
+            tgts = n.targets if isinstance(n, ast.Assign) else [n.target]
+            multis |= {t.id for t in tgts if isinstance(t, ast.Name)}
+    if with_params:
+        for pn in f.param_names():
+            ann = f.param_annotation(pn)
+            if ann is not None and 'MultiTensor' in norm(ann):
+                multis.add(pn)
+    changed = True
+    while changed:
+        changed = False
+        srcs: Dict[str, List[ast.AST]] = {}
+        for n in own_nodes(f.node):
+            if isinstance(n, ast.Assign) and len(n.targets) == 1 and isinstance(n.targets[0], ast.Name):
+                srcs.setdefault(n.targets[0].id, []).append(n.value)
+        for name, vals in srcs.items():
+            if name not in multis and any(isinstance(v, ast.Name) and v.id in multis for v in vals) \
+                    and all(isinstance(v, ast.Name) and v.id in multis or isinstance(v, ast.Constant) and v.value is None for v in vals):
+                multis.add(name); changed = True
+    return multis
+
+
+def check_jacobi_sweep(rep: Report, rule: str, f: FuncInfo) -> int:
+    """The iterate a sweep function builds (a local bound to MultiTensor(...) and written inside a loop) is an output only: inside
+    the loops it is never handed to another computation as an argument.  The products of one sweep read the previous iterate;
+    a value that is complete only at the end of the sweep (the sum / maximum over all rules of a nonterminal) must not shadow it."""
+    multis = multitensor_names(f)
+    # a selector (`target = Jx` / `target = J_inputs`) written inside the loop writes what it selects
+    selects: Dict[str, Set[str]] = {}
+    for n in own_nodes(f.node):
+        if isinstance(n, ast.Assign) and len(n.targets) == 1 and isinstance(n.targets[0], ast.Name) and isinstance(n.value, ast.Name) and n.value.id in multis:
+            selects.setdefault(n.targets[0].id, set()).add(n.value.id)
+    count = 0
+    for loop in [n for n in own_nodes(f.node) if isinstance(n, ast.For)]:
+        written = {m for m in multis for x in ast.walk(loop)
+                   if isinstance(x, ast.Subscript) and isinstance(x.ctx, ast.Store) and isinstance(x.value, ast.Name) and x.value.id == m
+                   or isinstance(x, ast.Call) and isinstance(x.func, ast.Attribute) and x.func.attr == 'add_single' and isinstance(x.func.value, ast.Name) and x.func.value.id == m}
+        written |= {src for w in list(written) for src in selects.get(w, ())}
+        for m in sorted(written):
+            count += 1
+            handed = [c for c in ast.walk(loop) if isinstance(c, ast.Call)
+                      and any(isinstance(a, ast.Name) and a.id == m or isinstance(a, ast.Starred) and isinstance(a.value, ast.Name) and a.value.id == m
+                              for a in list(c.args) + [k.value for k in c.keywords])]
+            rep.ob(rule, f.fq(), f"`{m}` is built in `for {norm(loop.target)} in {norm(loop.iter)[:50]}` and read by no computation of the same sweep", f.loc(loop), not handed,
+                   'the iterate under construction is only written (and read back block-wise by its own accumulation)' if not handed else
+                   f"`{norm(handed[0])[:90]}` receives the iterate under construction: partial values of this sweep (the maximum / sum over the rules seen so far) shadow the previous iterate")
+    return count
